@@ -9,6 +9,7 @@ package c19
 
 import (
 	"fmt"
+	"math"
 	"math/rand"
 	"sort"
 	"strings"
@@ -25,18 +26,30 @@ import (
 	"github.com/trajectoryjp/spatial_id_go/v4/transform"
 )
 
-// Pool: the arguments shared by all goroutines. Nothing in it may change while calls run.
+// Region: one cluster of shared arguments around one place at one zoom level.
+type Region struct {
+	Z      int64    // zoom of the cluster
+	Vox    float64  // horizontal size of a voxel of zoom Z at this latitude, metres
+	SIDs   []string // spatial IDs z/f/x/y, a 4x4x2 cluster at zoom Z, shuffled (unsorted on purpose)
+	SIDs2  []string // an overlapping cluster at zoom Z-1..Z+1
+	EIDs   []string // extended IDs h/x/y/v/f, same voxels
+	EIDs2  []string
+	Points []*object.Point
+	PNil   []*object.Point // a shared slice with a nil element
+	PA, PB *object.Point
+	Proj   []*object.ProjectedPoint
+	ESID   *object.ExtendedSpatialID
+	ESIDs  []*object.ExtendedSpatialID
+	ESIDv  object.ExtendedSpatialID
+	Unit   *integrate.UnitDividedSpatialID
+	High   *integrate.HighSpatialID
+	X0, Y0 int64
+}
+
+// Pool: the arguments shared by all goroutines. Nothing in it may change while calls run. Three regions (different continents, both signs of
+// longitude and latitude) at three different zoom levels, so that concurrent calls of one function work at different zooms.
 type Pool struct {
-	SIDs    []string // spatial IDs z/f/x/y, a 4x4x2 cluster at zoom 20, shuffled (unsorted on purpose)
-	SIDs2   []string // an overlapping cluster at zoom 19..21
-	EIDs    []string // extended IDs h/x/y/v/f, same region
-	EIDs2   []string
-	Points  []*object.Point
-	PA, PB  *object.Point
-	Proj    []*object.ProjectedPoint
-	ESID    *object.ExtendedSpatialID
-	ESIDs   []*object.ExtendedSpatialID
-	ESIDv   object.ExtendedSpatialID
+	Regs    []*Region
 	QVs     []*object.QuadkeyAndVerticalID
 	Tiles   []*object.TileXYZ
 	FQV     *object.FromExtendedSpatialIDToQuadkeyAndVerticalID
@@ -46,16 +59,11 @@ type Pool struct {
 	Ints    []int64
 	Ints2   []int64
 	Floats  []float64
-	Unit    *integrate.UnitDividedSpatialID
-	High    *integrate.HighSpatialID
-	X0, Y0  int64
 	Inner   [][2]int64
 	Malform []string
 	Edge    []string // extended IDs on the edges of the grid (x, y in {0, 2^h-1, 2^h/2}) at mixed zooms 0..35: any shift wraps around
-	EdgeS   []string // the same voxels with h = v, in spatial-ID notation
+	EdgeS   []string // voxels with h = v on the edges of the grid, in spatial-ID notation
 }
-
-const baseZoom = 20
 
 func must(err error) {
 	if err != nil {
@@ -69,23 +77,27 @@ func spare[T any](s []T, extra int) []T {
 	return r
 }
 
-// NewPool builds the shared arguments from a seed (sequentially, before any concurrent call).
-func NewPool(seed int64) *Pool {
-	r := rand.New(rand.NewSource(seed))
-	p := &Pool{}
-	lon0, lat0 := 139.70+r.Float64()*0.1, 35.60+r.Float64()*0.1
+var places = [][2]float64{{139.70, 35.60}, {-0.13, 51.50}, {-58.40, -34.60}, {151.20, -33.90}, {-122.40, 37.77}, {18.42, -33.92}}
+var zooms = []int64{14, 16, 18, 20, 22, 24}
+
+func newRegion(r *rand.Rand, place [2]float64, z int64) *Region {
+	g := &Region{Z: z}
+	cell := 360.0 / float64(int64(1)<<uint(z)) // degrees of longitude per voxel
+	lon0, lat0 := place[0]+r.Float64()*0.1, place[1]+r.Float64()*0.1
+	g.Vox = 40075016.0 / float64(int64(1)<<uint(z)) * math.Cos(lat0*math.Pi/180)
 	for i := 0; i < 12; i++ {
-		pt, err := object.NewPoint(lon0+r.Float64()*0.0008, lat0+r.Float64()*0.0008, r.Float64()*60-10)
+		pt, err := object.NewPoint(lon0+r.Float64()*cell*3, lat0+r.Float64()*cell*2, r.Float64()*60-10)
 		must(err)
-		p.Points = append(p.Points, pt)
+		g.Points = append(g.Points, pt)
 	}
-	p.Points = spare(p.Points, 4)
+	g.Points = spare(g.Points, 4)
+	g.PNil = spare([]*object.Point{g.Points[0], nil, g.Points[1]}, 2)
 	var err error
-	p.PA, err = object.NewPoint(lon0, lat0, 3)
+	g.PA, err = object.NewPoint(lon0, lat0, 3)
 	must(err)
-	p.PB, err = object.NewPoint(lon0+0.0004+r.Float64()*0.0004, lat0+0.0003+r.Float64()*0.0003, 3+r.Float64()*40)
+	g.PB, err = object.NewPoint(lon0+cell*(1+r.Float64()), lat0+cell*(0.6+r.Float64()*0.6), 3+r.Float64()*40)
 	must(err)
-	ids, err := shape.GetExtendedSpatialIdsOnPoints([]*object.Point{p.PA}, baseZoom, baseZoom)
+	ids, err := shape.GetExtendedSpatialIdsOnPoints([]*object.Point{g.PA}, z, z)
 	must(err)
 	var h, x0, y0, v, f0 int64
 	if _, e := fmt.Sscanf(ids[0], "%d/%d/%d/%d/%d", &h, &x0, &y0, &v, &f0); e != nil {
@@ -93,50 +105,68 @@ func NewPool(seed int64) *Pool {
 	}
 	x0 &^= 3
 	y0 &^= 3
-	p.X0, p.Y0 = x0, y0
+	g.X0, g.Y0 = x0, y0
 	for dx := int64(0); dx < 4; dx++ {
 		for dy := int64(0); dy < 4; dy++ {
 			for f := int64(0); f < 2; f++ {
-				p.SIDs = append(p.SIDs, fmt.Sprintf("%d/%d/%d/%d", baseZoom, f, x0+dx, y0+dy))
-				p.EIDs = append(p.EIDs, fmt.Sprintf("%d/%d/%d/%d/%d", baseZoom, x0+dx, y0+dy, baseZoom, f))
+				g.SIDs = append(g.SIDs, fmt.Sprintf("%d/%d/%d/%d", z, f, x0+dx, y0+dy))
+				g.EIDs = append(g.EIDs, fmt.Sprintf("%d/%d/%d/%d/%d", z, x0+dx, y0+dy, z, f))
 			}
 		}
 	}
 	for i := 0; i < 10; i++ {
-		z := int64(baseZoom - 1 + r.Intn(3))
-		sh := uint(z - (baseZoom - 1))
+		zz := z - 1 + int64(r.Intn(3))
+		sh := uint(zz - (z - 1))
 		x, y := (x0>>1)<<sh+int64(r.Intn(2<<sh)), (y0>>1)<<sh+int64(r.Intn(2<<sh))
-		p.SIDs2 = append(p.SIDs2, fmt.Sprintf("%d/%d/%d/%d", z, r.Intn(3)-1, x, y))
-		vz := int64(baseZoom - 1 + r.Intn(3))
-		p.EIDs2 = append(p.EIDs2, fmt.Sprintf("%d/%d/%d/%d/%d", z, x, y, vz, r.Intn(4)-2))
+		g.SIDs2 = append(g.SIDs2, fmt.Sprintf("%d/%d/%d/%d", zz, r.Intn(3)-1, x, y))
+		vz := z - 1 + int64(r.Intn(3))
+		g.EIDs2 = append(g.EIDs2, fmt.Sprintf("%d/%d/%d/%d/%d", zz, x, y, vz, r.Intn(4)-2))
 	}
-	r.Shuffle(len(p.SIDs), func(i, j int) { p.SIDs[i], p.SIDs[j] = p.SIDs[j], p.SIDs[i] })
-	r.Shuffle(len(p.EIDs), func(i, j int) { p.EIDs[i], p.EIDs[j] = p.EIDs[j], p.EIDs[i] })
-	p.SIDs, p.EIDs, p.SIDs2, p.EIDs2 = spare(p.SIDs, 6), spare(p.EIDs, 6), spare(p.SIDs2, 3), spare(p.EIDs2, 3)
-	p.Proj, err = shape.ConvertPointListToProjectedPointList(p.Points, 3857)
+	r.Shuffle(len(g.SIDs), func(i, j int) { g.SIDs[i], g.SIDs[j] = g.SIDs[j], g.SIDs[i] })
+	r.Shuffle(len(g.EIDs), func(i, j int) { g.EIDs[i], g.EIDs[j] = g.EIDs[j], g.EIDs[i] })
+	g.SIDs, g.EIDs, g.SIDs2, g.EIDs2 = spare(g.SIDs, 6), spare(g.EIDs, 6), spare(g.SIDs2, 3), spare(g.EIDs2, 3)
+	g.Proj, err = shape.ConvertPointListToProjectedPointList(g.Points, 3857)
 	must(err)
-	p.Proj = spare(p.Proj, 4)
-	p.ESID, err = object.NewExtendedSpatialID(p.EIDs[0])
+	g.Proj = spare(g.Proj, 4)
+	g.ESID, err = object.NewExtendedSpatialID(g.EIDs[0])
 	must(err)
-	for _, s := range append(append([]string{}, p.EIDs[:4]...), p.EIDs2[:4]...) {
+	for _, s := range append(append([]string{}, g.EIDs[:4]...), g.EIDs2[:4]...) {
 		e, err := object.NewExtendedSpatialID(s)
 		must(err)
-		p.ESIDs = append(p.ESIDs, e)
+		g.ESIDs = append(g.ESIDs, e)
 	}
-	p.ESIDs = spare(p.ESIDs, 2)
-	ev, err := object.NewExtendedSpatialID(p.EIDs2[0])
+	g.ESIDs = spare(g.ESIDs, 2)
+	ev, err := object.NewExtendedSpatialID(g.EIDs2[0])
 	must(err)
-	p.ESIDv = *ev
+	g.ESIDv = *ev
+	g.Unit = integrate.NewUnitDividedSpatialID(g.ESID, 1, 1)
+	g.High = integrate.NewHighSpatialID(integrate.NewUnitDividedSpatialID(g.ESIDs[1], 1, 1), 1, 1)
+	return g
+}
+
+// NewPool builds the shared arguments from a seed (sequentially, before any concurrent call).
+func NewPool(seed int64) *Pool {
+	r := rand.New(rand.NewSource(seed))
+	p := &Pool{}
+	pl, zs := r.Perm(len(places)), r.Perm(len(zooms))
+	for i := 0; i < 3; i++ {
+		p.Regs = append(p.Regs, newRegion(r, places[pl[i]], zooms[zs[i]]))
+	}
 	p.QVs = []*object.QuadkeyAndVerticalID{
 		object.NewQuadkeyAndVerticalID(6, 2914, 7, 74, 500, 0),
 		object.NewQuadkeyAndVerticalID(6, 2882, 25, 0, 0, 0),
 		object.NewQuadkeyAndVerticalID(9, 451739, 25, 0, 0, 0),
 		object.NewQuadkeyAndVerticalID(6, 2882+int64(r.Intn(20)), 7, int64(r.Intn(100)), 500, 0),
 		object.NewQuadkeyAndVerticalID(8, 40000+int64(r.Intn(2000)), 6, int64(r.Intn(60)), 800, -200),
+		object.NewQuadkeyAndVerticalID(int64(4+r.Intn(8)), int64(r.Intn(200)), int64(4+r.Intn(6)), int64(r.Intn(16)), 1000, -1000),
+		object.NewQuadkeyAndVerticalID(int64(4+r.Intn(8)), int64(r.Intn(200)), int64(4+r.Intn(6)), int64(r.Intn(16)), 250, 50),
 	}
 	p.QVs = spare(p.QVs, 3)
-	for i := int64(0); i < 6; i++ {
-		t, err := object.NewTileXYZ(22, 85263+i%3, 65423+i/3, 23, i-2)
+	// tiles: three runs of 4 tiles at zooms 22, 16 and 9 (vertical zoom one more); a call takes a window inside one run and an output
+	// zoom next to it (conversions across distant zooms explode)
+	for i := int64(0); i < 12; i++ {
+		hz := []int64{22, 16, 9}[i/4]
+		t, err := object.NewTileXYZ(hz, (int64(1)<<uint(hz))/3+i%2, (int64(1)<<uint(hz))/5+(i%4)/2, hz+1, i%4-2)
 		must(err)
 		p.Tiles = append(p.Tiles, t)
 	}
@@ -155,9 +185,7 @@ func NewPool(seed int64) *Pool {
 		p.Floats = append(p.Floats, r.Float64()*200-100)
 	}
 	p.Ints, p.Ints2, p.Floats = spare(p.Ints, 8), spare(p.Ints2, 8), spare(p.Floats, 8)
-	p.Unit = integrate.NewUnitDividedSpatialID(p.ESID, 1, 1)
-	p.High = integrate.NewHighSpatialID(integrate.NewUnitDividedSpatialID(p.ESIDs[1], 1, 1), 1, 1)
-	p.Malform = spare([]string{"", "1/2", "a/0/0/0/0", "20/1/1/20", "1/0/0/1/0/7", "1/0/0/1/x"}, 2)
+	p.Malform = spare([]string{"", "1/2", "a/0/0/0/0", "20/1/1", "1/0/0/1/0/7", "1/0/0/1/x", "x/y", "1//0/1/0", "20/1/b/3"}, 2) // never a well-formed ID of another zoom: merges across distant zooms explode
 	for _, z := range []int64{0, 1, 2, 3, 5, 8, 10, 13, 15, 18, 20, 22, 25, 28, 30, 33, 35} {
 		wd := int64(1) << uint(z)
 		for _, x := range []int64{0, wd - 1, wd / 2} {
@@ -168,7 +196,8 @@ func NewPool(seed int64) *Pool {
 				}
 				f := []int64{-1, 0, 5, -(int64(1) << uint(vz)), int64(1)<<uint(vz) - 1}[r.Intn(5)]
 				p.Edge = append(p.Edge, fmt.Sprintf("%d/%d/%d/%d/%d", z, x, y, vz, f))
-				p.EdgeS = append(p.EdgeS, fmt.Sprintf("%d/%d/%d/%d", z, f, x, y))
+				fs := []int64{-1, 0, 5, -wd, wd - 1}[r.Intn(5)]
+				p.EdgeS = append(p.EdgeS, fmt.Sprintf("%d/%d/%d/%d", z, fs, x, y))
 			}
 		}
 	}
@@ -183,13 +212,27 @@ func NewPool(seed int64) *Pool {
 // Windows handed to the calls keep spare capacity behind them, so the rendering covers the full capacity of every slice.
 func (p *Pool) Snapshot() string {
 	full := func(s []string) []string { return s[:cap(s)] }
-	return Canon([]interface{}{full(p.SIDs), full(p.SIDs2), full(p.EIDs), full(p.EIDs2), p.Points[:cap(p.Points)], p.PA, p.PB, p.Proj[:cap(p.Proj)], p.ESID,
-		p.ESIDs[:cap(p.ESIDs)], p.ESIDv, p.QVs[:cap(p.QVs)], p.Tiles[:cap(p.Tiles)], p.FQV, p.FQA, p.P3s[:cap(p.P3s)], p.Vecs[:cap(p.Vecs)],
-		p.Ints[:cap(p.Ints)], p.Ints2[:cap(p.Ints2)], p.Floats[:cap(p.Floats)], p.Unit, p.High, p.Inner[:cap(p.Inner)], full(p.Malform), full(p.Edge), full(p.EdgeS)}, false)
+	all := []interface{}{p.QVs[:cap(p.QVs)], p.Tiles[:cap(p.Tiles)], p.FQV, p.FQA, p.P3s[:cap(p.P3s)], p.Vecs[:cap(p.Vecs)],
+		p.Ints[:cap(p.Ints)], p.Ints2[:cap(p.Ints2)], p.Floats[:cap(p.Floats)], p.Inner[:cap(p.Inner)], full(p.Malform), full(p.Edge), full(p.EdgeS)}
+	for _, g := range p.Regs {
+		all = append(all, g.Z, full(g.SIDs), full(g.SIDs2), full(g.EIDs), full(g.EIDs2), g.Points[:cap(g.Points)], g.PNil[:cap(g.PNil)], g.PA, g.PB,
+			g.Proj[:cap(g.Proj)], g.ESID, g.ESIDs[:cap(g.ESIDs)], g.ESIDv, g.Unit, g.High)
+	}
+	return Canon(all, false)
 }
 
-// window: a random non-empty window of a shared slice (shares the backing array; capacity reaches to the end of the shared slice)
+func (p *Pool) reg(r *rand.Rand) *Region { return p.Regs[r.Intn(len(p.Regs))] }
+
+// window: a random window of a shared slice (shares the backing array; capacity reaches to the end of the shared slice);
+// about 1 in 25 windows is empty and 1 in 50 is nil, so every entry also sees the empty input and its error path concurrently
 func window[T any](r *rand.Rand, s []T, max int) []T {
+	switch r.Intn(50) {
+	case 0:
+		return nil
+	case 1, 2:
+		a := r.Intn(len(s))
+		return s[a:a]
+	}
 	n := 1 + r.Intn(max)
 	if n > len(s) {
 		n = len(s)
@@ -198,68 +241,113 @@ func window[T any](r *rand.Rand, s []T, max int) []T {
 	return s[a : a+n]
 }
 
+// tileRun: a window of the shared tiles inside one run of equal zoom, and that zoom
+func tileRun(p *Pool, r *rand.Rand) ([]*object.TileXYZ, int64) {
+	k := r.Intn(3)
+	run := p.Tiles[4*k : 4*k+4]
+	return window(r, run, 4), []int64{22, 16, 9}[k]
+}
+
 func pick[T any](r *rand.Rand, s []T) T { return s[r.Intn(len(s))] }
+
+// pid: an ID of a shared list; about 1 in 30 is one of the shared malformed / out-of-range IDs (error paths run concurrently too)
+func pid(r *rand.Rand, p *Pool, s []string) string {
+	if r.Intn(30) == 0 {
+		return p.Malform[r.Intn(len(p.Malform))]
+	}
+	return s[r.Intn(len(s))]
+}
+
+// widows: a window of IDs in which, rarely, one element is malformed (copied: the shared list itself stays as it is)
+func wids(r *rand.Rand, p *Pool, s []string, max int) []string {
+	w := window(r, s, max)
+	if len(w) > 0 && r.Intn(30) == 0 {
+		c := append([]string{}, w...)
+		c[r.Intn(len(c))] = p.Malform[r.Intn(len(p.Malform))]
+		return c
+	}
+	return w
+}
 
 // Call: one exported function or method with arguments drawn from the pool.
 type Call struct {
 	Name      string
-	Unordered bool // the output order follows map iteration: compare as multisets
+	Unordered bool // set-valued: the order of the result list follows Go's map iteration (the function ranges over a map), which differs between two
+	// sequential runs of the same call; only the result list itself is then compared as a multiset (measured by `vrace -detcheck`, and read off the code)
 	Run       func(p *Pool, r *rand.Rand) interface{}
 }
 
-func rs(vs ...interface{}) interface{} { return vs }
+// tuple: the results of one call; never sorted itself
+type tuple []interface{}
 
+func rs(vs ...interface{}) interface{} { return tuple(vs) }
+
+// errors are compared by their text (the library's messages contain no address)
 func errStr(e error) interface{} {
 	if e == nil {
 		return nil
 	}
-	return "error"
+	return "error: " + e.Error()
 }
 
-func zoomNear(r *rand.Rand) int64 { return int64(baseZoom - 2 + r.Intn(4)) }
+func zoomNear(r *rand.Rand, z int64) int64 { return z - 2 + int64(r.Intn(4)) }
 
 // Catalogue: every exported function and method of every package of the library.
 var Catalogue = []Call{
 	// ---- shape
 	{"shape.GetSpatialIdsOnLine", true, func(p *Pool, r *rand.Rand) interface{} {
-		a, e := shape.GetSpatialIdsOnLine(p.PA, p.PB, int64(16+r.Intn(5)))
+		g := p.reg(r)
+		a, e := shape.GetSpatialIdsOnLine(g.PA, g.PB, zoomNear(r, g.Z))
 		return rs(a, errStr(e))
 	}},
 	{"shape.GetExtendedSpatialIdsOnLine", true, func(p *Pool, r *rand.Rand) interface{} {
-		a, e := shape.GetExtendedSpatialIdsOnLine(pick(r, p.Points), pick(r, p.Points), int64(16+r.Intn(5)), int64(16+r.Intn(5)))
+		g := p.reg(r)
+		a, e := shape.GetExtendedSpatialIdsOnLine(pick(r, g.PNil), pick(r, g.Points), zoomNear(r, g.Z), zoomNear(r, g.Z))
 		return rs(a, errStr(e))
 	}},
-	{"shape.GetSpatialIdsOnPoints", true, func(p *Pool, r *rand.Rand) interface{} {
-		a, e := shape.GetSpatialIdsOnPoints(window(r, p.Points, 6), int64(r.Intn(30)))
+	{"shape.GetSpatialIdsOnPoints", false, func(p *Pool, r *rand.Rand) interface{} {
+		g := p.reg(r)
+		pts := window(r, g.Points, 6)
+		if r.Intn(25) == 0 {
+			pts = g.PNil // a shared slice with a nil element: the error path
+		}
+		a, e := shape.GetSpatialIdsOnPoints(pts, int64(r.Intn(30)))
 		return rs(a, errStr(e))
 	}},
-	{"shape.GetExtendedSpatialIdsOnPoints", true, func(p *Pool, r *rand.Rand) interface{} {
-		a, e := shape.GetExtendedSpatialIdsOnPoints(window(r, p.Points, 6), int64(r.Intn(36)), int64(r.Intn(36)))
+	{"shape.GetExtendedSpatialIdsOnPoints", false, func(p *Pool, r *rand.Rand) interface{} {
+		g := p.reg(r)
+		a, e := shape.GetExtendedSpatialIdsOnPoints(window(r, g.Points, 6), int64(r.Intn(36)), int64(r.Intn(36)))
 		return rs(a, errStr(e))
 	}},
 	{"shape.GetPointOnSpatialId", false, func(p *Pool, r *rand.Rand) interface{} {
-		a, e := shape.GetPointOnSpatialId(pick(r, p.SIDs), enum.PointOption(r.Intn(2)))
+		g := p.reg(r)
+		a, e := shape.GetPointOnSpatialId(pid(r, p, g.SIDs), enum.PointOption(r.Intn(2)))
 		return rs(a, errStr(e))
 	}},
 	{"shape.GetPointOnExtendedSpatialId", false, func(p *Pool, r *rand.Rand) interface{} {
-		a, e := shape.GetPointOnExtendedSpatialId(pick(r, p.EIDs2), enum.PointOption(r.Intn(2)))
+		g := p.reg(r)
+		a, e := shape.GetPointOnExtendedSpatialId(pid(r, p, g.EIDs2), enum.PointOption(r.Intn(2)))
 		return rs(a, errStr(e))
 	}},
 	{"shape.ConvertPointListToProjectedPointList", false, func(p *Pool, r *rand.Rand) interface{} {
-		a, e := shape.ConvertPointListToProjectedPointList(window(r, p.Points, 5), 3857)
+		g := p.reg(r)
+		a, e := shape.ConvertPointListToProjectedPointList(window(r, g.Points, 5), 3857)
 		return rs(a, errStr(e))
 	}},
 	{"shape.ConvertProjectedPointListToPointList", false, func(p *Pool, r *rand.Rand) interface{} {
-		a, e := shape.ConvertProjectedPointListToPointList(window(r, p.Proj, 5), 3857)
+		g := p.reg(r)
+		a, e := shape.ConvertProjectedPointListToPointList(window(r, g.Proj, 5), 3857)
 		return rs(a, errStr(e))
 	}},
 	{"shape.CheckZoom", false, func(p *Pool, r *rand.Rand) interface{} { return shape.CheckZoom(int64(r.Intn(40) - 2)) }},
 	{"shape.ConvertSpatialIdsToExtendedSpatialIds", false, func(p *Pool, r *rand.Rand) interface{} {
-		a, e := shape.ConvertSpatialIdsToExtendedSpatialIds(window(r, p.SIDs, 8))
+		g := p.reg(r)
+		a, e := shape.ConvertSpatialIdsToExtendedSpatialIds(wids(r, p, g.SIDs, 8))
 		return rs(a, errStr(e))
 	}},
-	{"shape.ConvertExtendedSpatialIdsToSpatialIds", true, func(p *Pool, r *rand.Rand) interface{} {
-		a, e := shape.ConvertExtendedSpatialIdsToSpatialIds(window(r, p.EIDs2, 4))
+	{"shape.ConvertExtendedSpatialIdsToSpatialIds", false, func(p *Pool, r *rand.Rand) interface{} {
+		g := p.reg(r)
+		a, e := shape.ConvertExtendedSpatialIdsToSpatialIds(wids(r, p, g.EIDs2, 4))
 		return rs(a, errStr(e))
 	}},
 	{"shape.ConvertSpatialIdsToExtendedSpatialIds/malformed", false, func(p *Pool, r *rand.Rand) interface{} {
@@ -268,61 +356,109 @@ var Catalogue = []Call{
 	}},
 	// ---- integrate
 	{"integrate.MergeSpatialIds", true, func(p *Pool, r *rand.Rand) interface{} {
-		a, e := integrate.MergeSpatialIds(window(r, p.SIDs, 32), int64(baseZoom-1-r.Intn(2)))
+		g := p.reg(r)
+		a, e := integrate.MergeSpatialIds(wids(r, p, g.SIDs, 32), g.Z-1-int64(r.Intn(2)))
 		return rs(a, errStr(e))
 	}},
 	{"integrate.MergeExtendedSpatialIds", true, func(p *Pool, r *rand.Rand) interface{} {
-		a, e := integrate.MergeExtendedSpatialIds(window(r, p.EIDs, 32), int64(baseZoom-1-r.Intn(2)), int64(baseZoom-r.Intn(2)))
+		g := p.reg(r)
+		a, e := integrate.MergeExtendedSpatialIds(wids(r, p, g.EIDs, 32), g.Z-1-int64(r.Intn(2)), g.Z-int64(r.Intn(2)))
 		return rs(a, errStr(e))
 	}},
 	{"integrate.ChangeSpatialIdsZoom", true, func(p *Pool, r *rand.Rand) interface{} {
-		a, e := integrate.ChangeSpatialIdsZoom(window(r, p.SIDs2, 4), zoomNear(r))
+		g := p.reg(r)
+		a, e := integrate.ChangeSpatialIdsZoom(wids(r, p, g.SIDs2, 4), zoomNear(r, g.Z))
 		return rs(a, errStr(e))
 	}},
 	{"integrate.ChangeExtendedSpatialIdsZoom", true, func(p *Pool, r *rand.Rand) interface{} {
-		a, e := integrate.ChangeExtendedSpatialIdsZoom(window(r, p.EIDs2, 4), zoomNear(r), zoomNear(r))
+		g := p.reg(r)
+		a, e := integrate.ChangeExtendedSpatialIdsZoom(wids(r, p, g.EIDs2, 4), zoomNear(r, g.Z), zoomNear(r, g.Z))
 		return rs(a, errStr(e))
 	}},
-	{"integrate.HorizontalZoom", true, func(p *Pool, r *rand.Rand) interface{} {
-		return integrate.HorizontalZoom(baseZoom, p.X0+int64(r.Intn(4)), p.Y0+int64(r.Intn(4)), zoomNear(r))
+	{"integrate.HorizontalZoom", false, func(p *Pool, r *rand.Rand) interface{} {
+		g := p.reg(r)
+		return integrate.HorizontalZoom(g.Z, g.X0+int64(r.Intn(4)), g.Y0+int64(r.Intn(4)), zoomNear(r, g.Z))
 	}},
 	{"integrate.HorizontalZoomMinMax", false, func(p *Pool, r *rand.Rand) interface{} {
-		a, b, c, d := integrate.HorizontalZoomMinMax(baseZoom, p.X0+int64(r.Intn(4)), p.Y0+int64(r.Intn(4)), int64(r.Intn(30)))
+		g := p.reg(r)
+		a, b, c, d := integrate.HorizontalZoomMinMax(g.Z, g.X0+int64(r.Intn(4)), g.Y0+int64(r.Intn(4)), int64(r.Intn(30)))
 		return rs(a, b, c, d)
 	}},
-	{"integrate.VerticalZoom", true, func(p *Pool, r *rand.Rand) interface{} {
-		return integrate.VerticalZoom(baseZoom, int64(r.Intn(64)-32), zoomNear(r))
+	{"integrate.VerticalZoom", false, func(p *Pool, r *rand.Rand) interface{} {
+		g := p.reg(r)
+		return integrate.VerticalZoom(g.Z, int64(r.Intn(64)-32), zoomNear(r, g.Z))
 	}},
 	{"integrate.NewUnitDividedSpatialID", false, func(p *Pool, r *rand.Rand) interface{} {
-		return integrate.NewUnitDividedSpatialID(pick(r, p.ESIDs), int64(r.Intn(2)), int64(r.Intn(2)))
+		g := p.reg(r)
+		return integrate.NewUnitDividedSpatialID(pick(r, g.ESIDs), int64(r.Intn(2)), int64(r.Intn(2)))
 	}},
-	{"integrate.NewHighSpatialID", false, func(p *Pool, r *rand.Rand) interface{} {
-		// NewHighSpatialID keeps the unit's ID set by reference, so the unit is private to this call
-		u := integrate.NewUnitDividedSpatialID(pick(r, p.ESIDs), 1, 1)
-		return integrate.NewHighSpatialID(u, int64(r.Intn(2)), int64(r.Intn(2)))
+	// constructor-then-mutator chains on SHARED arguments: the shared object is only ever a constructor argument or a reader's receiver; the
+	// mutators (Merge, Set*) are applied to the private result. A constructor that keeps a reference to its argument makes the mutator write the
+	// shared object (NewHighSpatialID kept the unit's ID map until /repo 06056a1; NewUnitDividedSpatialID keeps the pointer to its argument).
+	{"integrate.NewHighSpatialID(shared unit)", false, func(p *Pool, r *rand.Rand) interface{} {
+		g := p.reg(r)
+		return integrate.NewHighSpatialID(g.Unit, int64(r.Intn(2)), int64(r.Intn(2)))
 	}},
-	{"integrate.HighSpatialID.IsDense", false, func(p *Pool, r *rand.Rand) interface{} { return rs(p.High.IsDense(), p.High.ID()) }},
-	{"integrate.HighSpatialID.Merge/private", false, func(p *Pool, r *rand.Rand) interface{} {
-		a := integrate.NewHighSpatialID(integrate.NewUnitDividedSpatialID(pick(r, p.ESIDs), 1, 1), 1, 1)
-		a.Merge(p.High) // the argument is shared and only read; the receiver is private
-		return rs(a.IsDense(), a.ID())
+	{"integrate.NewHighSpatialID(shared unit)+Merge on the result/chain", false, func(p *Pool, r *rand.Rand) interface{} {
+		g := p.reg(r)
+		h := integrate.NewHighSpatialID(g.Unit, 1, 1)
+		h.Merge(g.High) // g.High, g.Unit: shared, only read by contract; h: private
+		h2 := integrate.NewHighSpatialID(integrate.NewUnitDividedSpatialID(pick(r, g.ESIDs), 1, 1), 1, 1)
+		h.Merge(h2)
+		return rs(h.IsDense(), h.ID(), g.Unit.ID())
+	}},
+	{"integrate.NewHighSpatialID(shared unit).IsDense/chain", false, func(p *Pool, r *rand.Rand) interface{} {
+		g := p.reg(r)
+		return rs(integrate.NewHighSpatialID(g.Unit, 1, 1).IsDense(), integrate.NewHighSpatialID(g.Unit, 0, 0).IsDense(), g.High.IsDense(), g.High.ID(), g.Unit.ID())
+	}},
+	{"integrate.NewHighSpatialID(shared unit)+setters on the result/chain", false, func(p *Pool, r *rand.Rand) interface{} {
+		g := p.reg(r)
+		h := integrate.NewHighSpatialID(g.Unit, 1, 1)
+		h.SetX(h.X() + int64(r.Intn(3)))
+		h.SetZoom(h.HZoom(), h.VZoom())
+		return rs(h.ID(), h.IsDense(), g.Unit.ID(), g.ESID.ID())
+	}},
+	{"integrate.NewUnitDividedSpatialID(shared ID)+setters on the result/chain", false, func(p *Pool, r *rand.Rand) interface{} {
+		g := p.reg(r)
+		s := pick(r, g.ESIDs)
+		u := integrate.NewUnitDividedSpatialID(s, int64(r.Intn(2)), int64(r.Intn(2)))
+		u.SetX(7 + int64(r.Intn(5))) // promoted setter on the private unit; s is shared
+		u.SetZ(int64(r.Intn(5)))
+		return rs(u.ID(), s.ID())
+	}},
+	{"integrate.NewUnitDividedSpatialID(shared ID)+NewHighSpatialID+Merge/chain", false, func(p *Pool, r *rand.Rand) interface{} {
+		g := p.reg(r)
+		a := integrate.NewHighSpatialID(integrate.NewUnitDividedSpatialID(g.ESID, 1, 1), 1, 1)
+		b := integrate.NewHighSpatialID(integrate.NewUnitDividedSpatialID(pick(r, g.ESIDs), 1, 1), 1, 1)
+		a.Merge(b)
+		a.Merge(g.High)
+		return rs(a.IsDense(), a.ID(), g.ESID.ID())
+	}},
+	{"integrate.HighSpatialID.IsDense", false, func(p *Pool, r *rand.Rand) interface{} {
+		g := p.reg(r)
+		return rs(g.High.IsDense(), g.High.ID(), g.Unit.ID(), g.Unit.X())
 	}},
 	// ---- operated
 	{"operated.Get6spatialIdsAdjacentToFaces", false, func(p *Pool, r *rand.Rand) interface{} {
-		return operated.Get6spatialIdsAdjacentToFaces(pick(r, p.EIDs))
+		g := p.reg(r)
+		return operated.Get6spatialIdsAdjacentToFaces(pid(r, p, g.EIDs))
 	}},
 	{"operated.Get8spatialIdsAroundHorizontal", false, func(p *Pool, r *rand.Rand) interface{} {
-		return operated.Get8spatialIdsAroundHorizontal(pick(r, p.EIDs2))
+		g := p.reg(r)
+		return operated.Get8spatialIdsAroundHorizontal(pid(r, p, g.EIDs2))
 	}},
 	{"operated.Get26spatialIdsAroundVoxel", false, func(p *Pool, r *rand.Rand) interface{} {
-		return operated.Get26spatialIdsAroundVoxel(pick(r, p.EIDs))
+		g := p.reg(r)
+		return operated.Get26spatialIdsAroundVoxel(pid(r, p, g.EIDs))
 	}},
 	{"operated.GetNspatialIdsAroundVoxcels", true, func(p *Pool, r *rand.Rand) interface{} {
-		a, e := operated.GetNspatialIdsAroundVoxcels(window(r, p.EIDs, 4), int64(r.Intn(3)), int64(r.Intn(2)))
+		g := p.reg(r)
+		a, e := operated.GetNspatialIdsAroundVoxcels(wids(r, p, g.EIDs, 4), int64(r.Intn(3)), int64(r.Intn(2)))
 		return rs(a, errStr(e))
 	}},
 	{"operated.GetShiftingSpatialID", false, func(p *Pool, r *rand.Rand) interface{} {
-		return operated.GetShiftingSpatialID(pick(r, p.EIDs2), int64(r.Intn(9)-4), int64(r.Intn(9)-4), int64(r.Intn(9)-4))
+		g := p.reg(r)
+		return operated.GetShiftingSpatialID(pid(r, p, g.EIDs2), int64(r.Intn(9)-4), int64(r.Intn(9)-4), int64(r.Intn(9)-4))
 	}},
 	// ---- operated at the edges of the grid and at mixed zooms (entries named .../edge, .../wrap, .../mixed are drawn more often, see Batch)
 	{"operated.GetShiftingSpatialID/wrap", false, func(p *Pool, r *rand.Rand) interface{} {
@@ -385,12 +521,13 @@ var Catalogue = []Call{
 		return rs(a, errStr(e))
 	}},
 	{"integrate.MergeExtendedSpatialIds/mixed", true, func(p *Pool, r *rand.Rand) interface{} {
+		g := p.reg(r)
 		// the 8 children of a voxel at a random zoom (computed by the library), merged back: zoom differences stay at 1 (larger ones explode)
 		id := pick(r, p.Edge)
 		var h, x, y, v int64
 		fmt.Sscanf(id, "%d/%d/%d/%d/", &h, &x, &y, &v)
 		if h > 33 || v > 33 {
-			id, h, v = p.EIDs[1], baseZoom, baseZoom
+			id, h, v = g.EIDs[1], g.Z, g.Z
 		}
 		kids, e0 := integrate.ChangeExtendedSpatialIdsZoom([]string{id}, h+1, v+1)
 		if e0 != nil {
@@ -415,12 +552,13 @@ var Catalogue = []Call{
 		a, e := shape.GetPointOnExtendedSpatialId(pick(r, p.Edge), enum.PointOption(r.Intn(2)))
 		return rs(a, errStr(e))
 	}},
-	{"shape.ConvertExtendedSpatialIdsToSpatialIds/mixed", true, func(p *Pool, r *rand.Rand) interface{} {
+	{"shape.ConvertExtendedSpatialIdsToSpatialIds/mixed", false, func(p *Pool, r *rand.Rand) interface{} {
+		g := p.reg(r)
 		id := pick(r, p.Edge)
 		var h, x, y, v int64
 		fmt.Sscanf(id, "%d/%d/%d/%d/", &h, &x, &y, &v)
 		if v-h > 6 || h-v > 3 {
-			id = p.EIDs2[0]
+			id = g.EIDs2[0]
 		}
 		a, e := shape.ConvertExtendedSpatialIdsToSpatialIds([]string{id})
 		return rs(a, errStr(e))
@@ -430,19 +568,23 @@ var Catalogue = []Call{
 	}},
 	// ---- detector
 	{"detector.CheckSpatialIdsOverlap", false, func(p *Pool, r *rand.Rand) interface{} {
-		a, e := detector.CheckSpatialIdsOverlap(pick(r, p.SIDs2), pick(r, p.SIDs))
+		g := p.reg(r)
+		a, e := detector.CheckSpatialIdsOverlap(pid(r, p, g.SIDs2), pid(r, p, g.SIDs))
 		return rs(a, errStr(e))
 	}},
 	{"detector.CheckSpatialIdsArrayOverlap", false, func(p *Pool, r *rand.Rand) interface{} {
-		a, e := detector.CheckSpatialIdsArrayOverlap(window(r, p.SIDs2, 6), window(r, p.SIDs, 10))
+		g := p.reg(r)
+		a, e := detector.CheckSpatialIdsArrayOverlap(wids(r, p, g.SIDs2, 6), wids(r, p, g.SIDs, 10))
 		return rs(a, errStr(e))
 	}},
 	{"detector.CheckExtendedSpatialIdsOverlap", false, func(p *Pool, r *rand.Rand) interface{} {
-		a, e := detector.CheckExtendedSpatialIdsOverlap(pick(r, p.EIDs2), pick(r, p.EIDs))
+		g := p.reg(r)
+		a, e := detector.CheckExtendedSpatialIdsOverlap(pid(r, p, g.EIDs2), pid(r, p, g.EIDs))
 		return rs(a, errStr(e))
 	}},
 	{"detector.CheckExtendedSpatialIdsArrayOverlap", false, func(p *Pool, r *rand.Rand) interface{} {
-		a, e := detector.CheckExtendedSpatialIdsArrayOverlap(window(r, p.EIDs2, 6), window(r, p.EIDs, 10))
+		g := p.reg(r)
+		a, e := detector.CheckExtendedSpatialIdsArrayOverlap(wids(r, p, g.EIDs2, 6), wids(r, p, g.EIDs, 10))
 		return rs(a, errStr(e))
 	}},
 	// ---- transform
@@ -454,27 +596,33 @@ var Catalogue = []Call{
 		a, e := transform.ConvertQuadkeysAndVerticalIDsToSpatialIDs(window(r, p.QVs, 3), int64(6+r.Intn(3)))
 		return rs(a, errStr(e))
 	}},
-	{"transform.ConvertExtendedSpatialIDsToQuadkeysAndVerticalIDs", true, func(p *Pool, r *rand.Rand) interface{} {
-		a, e := transform.ConvertExtendedSpatialIDsToQuadkeysAndVerticalIDs(window(r, p.EIDs, 3), int64(baseZoom-1+r.Intn(3)), int64(8+r.Intn(4)), 500, 0)
+	{"transform.ConvertExtendedSpatialIDsToQuadkeysAndVerticalIDs", false, func(p *Pool, r *rand.Rand) interface{} {
+		g := p.reg(r)
+		a, e := transform.ConvertExtendedSpatialIDsToQuadkeysAndVerticalIDs(wids(r, p, g.EIDs, 3), g.Z-1+int64(r.Intn(3)), int64(8+r.Intn(4)), []float64{500, 1000, 250}[r.Intn(3)], []float64{0, -1000, 50}[r.Intn(3)])
 		return rs(a, errStr(e))
 	}},
-	{"transform.ConvertSpatialIDsToQuadkeysAndVerticalIDs", true, func(p *Pool, r *rand.Rand) interface{} {
-		a, e := transform.ConvertSpatialIDsToQuadkeysAndVerticalIDs(window(r, p.SIDs, 3), int64(baseZoom-1+r.Intn(3)), int64(8+r.Intn(4)), 500, 0)
+	{"transform.ConvertSpatialIDsToQuadkeysAndVerticalIDs", false, func(p *Pool, r *rand.Rand) interface{} {
+		g := p.reg(r)
+		a, e := transform.ConvertSpatialIDsToQuadkeysAndVerticalIDs(wids(r, p, g.SIDs, 3), g.Z-1+int64(r.Intn(3)), int64(8+r.Intn(4)), []float64{500, 1000, 250}[r.Intn(3)], []float64{0, -1000, 50}[r.Intn(3)])
 		return rs(a, errStr(e))
 	}},
-	{"transform.ConvertExtendedSpatialIDsToQuadkeysAndAltitudekeys", true, func(p *Pool, r *rand.Rand) interface{} {
-		a, e := transform.ConvertExtendedSpatialIDsToQuadkeysAndAltitudekeys(window(r, p.EIDs, 3), int64(baseZoom-1+r.Intn(3)), int64(baseZoom-1+r.Intn(3)), 25, int64(r.Intn(3)-1))
+	{"transform.ConvertExtendedSpatialIDsToQuadkeysAndAltitudekeys", false, func(p *Pool, r *rand.Rand) interface{} {
+		g := p.reg(r)
+		a, e := transform.ConvertExtendedSpatialIDsToQuadkeysAndAltitudekeys(wids(r, p, g.EIDs, 3), g.Z-1+int64(r.Intn(3)), g.Z-1+int64(r.Intn(3)), 25, int64(r.Intn(3)-1))
 		return rs(a, errStr(e))
 	}},
-	{"transform.ConvertExtendedSpatialIDToSpatialIDs", true, func(p *Pool, r *rand.Rand) interface{} {
-		return transform.ConvertExtendedSpatialIDToSpatialIDs(pick(r, p.ESIDs))
+	{"transform.ConvertExtendedSpatialIDToSpatialIDs", false, func(p *Pool, r *rand.Rand) interface{} {
+		g := p.reg(r)
+		return transform.ConvertExtendedSpatialIDToSpatialIDs(pick(r, g.ESIDs))
 	}},
 	{"transform.ConvertTileXYZsToExtendedSpatialIDs", true, func(p *Pool, r *rand.Rand) interface{} {
-		a, e := transform.ConvertTileXYZsToExtendedSpatialIDs(window(r, p.Tiles, 4), 25, int64(r.Intn(3)-1), int64(22+r.Intn(3)))
+		ts, hz := tileRun(p, r)
+		a, e := transform.ConvertTileXYZsToExtendedSpatialIDs(ts, int64(24+r.Intn(2)), int64(r.Intn(3)-1), hz+int64(r.Intn(3)))
 		return rs(a, errStr(e))
 	}},
 	{"transform.ConvertTileXYZsToSpatialIDs", true, func(p *Pool, r *rand.Rand) interface{} {
-		a, e := transform.ConvertTileXYZsToSpatialIDs(window(r, p.Tiles, 4), 25, int64(r.Intn(3)-1), int64(22+r.Intn(2)))
+		ts, hz := tileRun(p, r)
+		a, e := transform.ConvertTileXYZsToSpatialIDs(ts, int64(24+r.Intn(2)), int64(r.Intn(3)-1), hz+int64(r.Intn(2)))
 		return rs(a, errStr(e))
 	}},
 	{"transform.ConvertAltitudekeyToMinMaxZ", false, func(p *Pool, r *rand.Rand) interface{} {
@@ -486,15 +634,18 @@ var Catalogue = []Call{
 		return rs(a, b, errStr(e))
 	}},
 	{"transform.GetExtendedSpatialIdsWithinRadiusOfLine", true, func(p *Pool, r *rand.Rand) interface{} {
-		a, e := transform.GetExtendedSpatialIdsWithinRadiusOfLine(p.PA, p.PB, 1+r.Float64()*3, int64(17+r.Intn(2)), int64(17+r.Intn(2)), r.Intn(2) == 0)
+		g := p.reg(r)
+		a, e := transform.GetExtendedSpatialIdsWithinRadiusOfLine(g.PA, g.PB, g.Vox*2*(0.2+0.5*r.Float64()), g.Z-1, g.Z-1-int64(r.Intn(2)), r.Intn(2) == 0)
 		return rs(a, errStr(e))
 	}},
 	{"transform.FitClearanceAroundExtendedSpatialID", false, func(p *Pool, r *rand.Rand) interface{} {
-		a, b, e := transform.FitClearanceAroundExtendedSpatialID(pick(r, p.EIDs), 1+r.Float64()*20)
+		g := p.reg(r)
+		a, b, e := transform.FitClearanceAroundExtendedSpatialID(pid(r, p, g.EIDs), g.Vox*(0.3+1.5*r.Float64()))
 		return rs(a, b, errStr(e))
 	}},
 	{"transform.GetVoxelIDfromSpatialID", false, func(p *Pool, r *rand.Rand) interface{} {
-		return transform.GetVoxelIDfromSpatialID(pick(r, p.EIDs2))
+		g := p.reg(r)
+		return transform.GetVoxelIDfromSpatialID(pid(r, p, g.EIDs2))
 	}},
 	// ---- common
 	{"common.AlmostEqual", false, func(p *Pool, r *rand.Rand) interface{} {
@@ -508,15 +659,23 @@ var Catalogue = []Call{
 	{"common.DegreeToRadian/RadianToDegree", false, func(p *Pool, r *rand.Rand) interface{} {
 		return rs(common.DegreeToRadian(pick(r, p.Floats)), common.RadianToDegree(pick(r, p.Floats)))
 	}},
-	{"common.Union", true, func(p *Pool, r *rand.Rand) interface{} { return common.Union(window(r, p.Ints, 12), window(r, p.Ints2, 12)) }},
+	{"common.Union", true, func(p *Pool, r *rand.Rand) interface{} {
+		return common.Union(window(r, p.Ints, 12), window(r, p.Ints2, 12))
+	}},
 	{"common.Difference", false, func(p *Pool, r *rand.Rand) interface{} {
-		return common.Difference(window(r, p.SIDs, 12), window(r, p.SIDs, 12))
+		g := p.reg(r)
+		return common.Difference(wids(r, p, g.SIDs, 12), wids(r, p, g.SIDs, 12))
 	}},
 	{"common.Intersect", false, func(p *Pool, r *rand.Rand) interface{} {
 		return common.Intersect(window(r, p.Ints, 12), window(r, p.Ints2, 12))
 	}},
-	{"common.Unique", true, func(p *Pool, r *rand.Rand) interface{} { return common.Unique(window(r, p.SIDs, 16)) }},
-	{"common.Include", false, func(p *Pool, r *rand.Rand) interface{} { return common.Include(window(r, p.Ints, 12), pick(r, p.Ints2)) }},
+	{"common.Unique", true, func(p *Pool, r *rand.Rand) interface{} {
+		g := p.reg(r)
+		return common.Unique(wids(r, p, g.SIDs, 16))
+	}},
+	{"common.Include", false, func(p *Pool, r *rand.Rand) interface{} {
+		return common.Include(window(r, p.Ints, 12), pick(r, p.Ints2))
+	}},
 	{"common.Combinations", false, func(p *Pool, r *rand.Rand) interface{} {
 		var out [][]int64
 		common.Combinations(int64(3+r.Intn(4)), int64(1+r.Intn(3)), func(c []int64) { out = append(out, append([]int64{}, c...)) })
@@ -535,34 +694,39 @@ var Catalogue = []Call{
 	}},
 	// ---- common/object: getters on shared objects, constructors, setters on private objects
 	{"object.Point getters", false, func(p *Pool, r *rand.Rand) interface{} {
-		q := pick(r, p.Points)
-		return rs(q.Lon(), q.Lat(), q.Alt(), p.PA.Lon(), p.PB.Alt())
+		g := p.reg(r)
+		q := pick(r, g.Points)
+		return rs(q.Lon(), q.Lat(), q.Alt(), g.PA.Lon(), g.PB.Alt())
 	}},
 	{"object.NewPoint+setters/private", false, func(p *Pool, r *rand.Rand) interface{} {
-		src := pick(r, p.Points)
+		g := p.reg(r)
+		src := pick(r, g.Points)
 		q, e := object.NewPoint(src.Lon(), src.Lat(), src.Alt())
 		if e != nil {
 			return "error"
 		}
-		e1 := q.SetLon(p.PA.Lon() + r.Float64())
+		e1 := q.SetLon(g.PA.Lon() + r.Float64())
 		e2 := q.SetLat(95 * r.Float64())
 		q.SetAlt(pick(r, p.Floats))
 		return rs(q, errStr(e1), errStr(e2))
 	}},
 	{"object.ExtendedSpatialID getters", false, func(p *Pool, r *rand.Rand) interface{} {
-		s := pick(r, p.ESIDs)
-		return rs(s.X(), s.Y(), s.Z(), s.HZoom(), s.VZoom(), s.ID(), s.FieldParams(), p.ESIDv.ID(), p.ESIDv.X(), p.ESID.ID())
+		g := p.reg(r)
+		s := pick(r, g.ESIDs)
+		return rs(s.X(), s.Y(), s.Z(), s.HZoom(), s.VZoom(), s.ID(), s.FieldParams(), g.ESIDv.ID(), g.ESIDv.X(), g.ESID.ID())
 	}},
 	{"object.ExtendedSpatialID.Higher", false, func(p *Pool, r *rand.Rand) interface{} {
-		return rs(pick(r, p.ESIDs).Higher(int64(r.Intn(3)), int64(r.Intn(3))), p.ESIDv.Higher(1, int64(r.Intn(2))))
+		g := p.reg(r)
+		return rs(pick(r, g.ESIDs).Higher(int64(r.Intn(3)), int64(r.Intn(3))), g.ESIDv.Higher(1, int64(r.Intn(2))))
 	}},
 	{"object.NewExtendedSpatialID+setters/private", false, func(p *Pool, r *rand.Rand) interface{} {
-		s, e := object.NewExtendedSpatialID(pick(r, p.EIDs2))
+		g := p.reg(r)
+		s, e := object.NewExtendedSpatialID(pid(r, p, g.EIDs2))
 		if e != nil {
 			return "error"
 		}
 		s.SetX(s.X() + int64(r.Intn(3)))
-		s.SetY(p.ESID.Y())
+		s.SetY(g.ESID.Y())
 		s.SetZ(int64(r.Intn(5)))
 		s.SetZoom(s.HZoom()+1, s.VZoom())
 		e2 := s.ResetExtendedSpatialID(pick(r, p.Malform))
@@ -668,14 +832,17 @@ type Inst struct {
 }
 
 // RunInst runs one call instance against the pool; panics become part of the result.
-func RunInst(p *Pool, in Inst) (res string) {
+func RunInst(p *Pool, in Inst) (res string) { return RunInstAs(p, in, Catalogue[in.Idx].Unordered) }
+
+// RunInstAs: the same with the rendering chosen by the caller (vrace -detcheck measures which entries are set-valued).
+func RunInstAs(p *Pool, in Inst, unordered bool) (res string) {
 	c := Catalogue[in.Idx]
 	defer func() {
 		if e := recover(); e != nil {
 			res = "panic: " + fmt.Sprint(e)
 		}
 	}()
-	return Canon(c.Run(p, rand.New(rand.NewSource(in.Seed))), c.Unordered)
+	return Canon(c.Run(p, rand.New(rand.NewSource(in.Seed))), unordered)
 }
 
 // weight of a catalogue entry in a batch: calls at the edges of the grid / at mixed zooms are drawn more often (state that depends on the zoom
@@ -684,6 +851,8 @@ func weight(name string) int {
 	switch {
 	case strings.Contains(name, "/wrap"):
 		return 8
+	case strings.HasSuffix(name, "/chain"):
+		return 3
 	case strings.HasSuffix(name, "/edge"):
 		return 4
 	case strings.HasSuffix(name, "/mixed"):
@@ -719,6 +888,10 @@ func Batch(r *rand.Rand, n int, focus int) []Inst {
 			idx = perm[i]
 		default:
 			idx = weighted[r.Intn(len(weighted))]
+		}
+		// the same function again with other arguments: different calls of one function overlap (state keyed on an argument shows)
+		if focus == 0 && i > 0 && r.Intn(4) == 0 {
+			idx = out[r.Intn(i)].Idx
 		}
 		out = append(out, Inst{Idx: idx, Seed: r.Int63()})
 	}
